@@ -69,6 +69,11 @@ Init == /\ book = [a \in Addrs |-> None]
 (* A call naming several addresses is the sequence of the one-address calls, in the given order. *)
 Elems(B) == IF Cap = 0 THEN B ELSE {B[i] : i \in 1..Len(B)}
 Order(B) == IF Cap = 0 THEN <<>> ELSE B
+\* A signed record may list NO usable address (an empty list, only addresses with another peer's /p2p
+\* suffix, only undecodable ones): it is accepted or rejected on its sequence number like any other,
+\* evicts what the previous record listed, becomes THE stored record (GetPeerRecord returns it while the
+\* peer has other live addresses) and adds nothing.
+NoAddrs == IF Cap = 0 THEN {} ELSE <<>>
 NeedEvict(b, a, t) == Cap > 0 /\ ~Present(b, a) /\ ~IsConn(t) /\ Cardinality(Unconn(b)) >= Cap
 Minima(b) == {x \in Unconn(b) : \A y \in Unconn(b) : b[x].rem <= b[y].rem}
 Victim(b) == CHOOSE x \in Minima(b) : TRUE
@@ -178,7 +183,7 @@ Reopen ==
 Next == \/ \E S \in Batches, t \in TTLs : Add(S, t) \/ Set(S, t)
         \/ \E o \in TTLs \ {0}, n \in TTLs : Update(o, n)
         \/ Clear \/ Tick \/ GC \/ Reopen
-        \/ \E q \in Seqs, S \in Batches, t \in TTLs : Consume(q, S, t)
+        \/ \E q \in Seqs, S \in Batches \cup {NoAddrs}, t \in TTLs : Consume(q, S, t)
 
 Spec == Init /\ [][Next]_vars
 
@@ -188,7 +193,7 @@ Spec == Init /\ [][Next]_vars
 TypeOK == /\ \A a \in Addrs : book[a] = None \/
                  (book[a].ttl \in TTLs \ {0} /\ book[a].rem >= 1 /\ book[a].rem <= Life(book[a].ttl)
                   /\ (IsConn(book[a].ttl) <=> book[a].rem = Inf))
-          /\ rec.has => (rec.seq \in Seqs /\ rec.addrs \in {Elems(B) : B \in Batches})
+          /\ rec.has => (rec.seq \in Seqs /\ rec.addrs \in {Elems(B) : B \in Batches} \cup {{}})
 
 \* a record is only ever returned while the peer has a live address
 RecordLifetime == rec.has => Live(book) # {}
